@@ -1,30 +1,67 @@
 import FiberModel.C14.Trace
+import FiberModel.C14.Faults
 import FiberModel.C14.Directive
 /-
 C14 — property theorems (only). Helper lemmas: HeapLemmas.lean, Lemmas.lean, Inv.lean, Trace.lean,
 Directive.lean.
 
-Setting. `Reachable cfg g`: `g = run cfg (G.init ts uts reqs) evs` for *any* initial clocks, any list of
-requests (each carrying the response its origin handler will produce), and any list of events
-`evs` – every interleaving of thread steps at lock / handler boundaries and every advance of the
+Setting. `Reachable cfg g`: `g = run cfg (G.init ts uts reqs) evs` for *any* initial clocks (the cache's
+at least 1: `timestamp` starts as `time.Now().Unix()`, see `clock_never_zero`), any list of requests (each
+carrying the response its origin handler will produce *and the outcome of every call it makes to an injected
+storage*: success, error, or – for the `Get` of an entry – a value that does not decode), and any list of
+events `evs` – every interleaving of thread steps at lock / handler boundaries and every advance of the
 cache's clock and of the storage's clock.  Standing assumption on the configuration:
 `cfg.maxBytes < 2^63` (Go's `uint` is 64 bit; `storedBytes+bodySize` must not wrap).
+
+Storage faults. Theorems without a hypothesis about faults hold for every fault schedule (no panic, no
+deadlock, mutual exclusion, `storedBytes` = heap sum ≤ MaxBytes, index and key map of the heap, what a hit
+is built from, freshness, no-cache / no-store, what is stored). Where a failed `Storage.Set` /
+`Storage.Delete` – which the code ignores – does break the sentence, the theorem carries the hypothesis that
+names the region: `g.sh.dirty = []` (no such failure outstanding), `th.taint = false` (none outstanding for
+the request's key when it was looked up), or "the `Delete` of this request goes through".
+`quiet_runs_stay_clean` shows these hold in every run in which no `Set`/`Delete` fails (failing or garbled
+`Get`s allowed). The region with a failed `Set`/`Delete` is the known finding K1 (known/C14.json).
 -/
 namespace C14
 open B
 set_option linter.unusedSimpArgs false
 
 def Reachable (cfg : Config) (g : G) : Prop :=
-  ∃ (ts uts : Nat) (reqs : List Req) (evs : List Ev), g = run cfg (G.init ts uts reqs) evs
+  ∃ (ts uts : Nat) (reqs : List Req) (evs : List Ev), 1 ≤ ts ∧ g = run cfg (G.init ts uts reqs) evs
 
 theorem reachable_inv {cfg : Config} (hmb : cfg.maxBytes < 2 ^ 63) {g : G} (h : Reachable cfg g) : Inv cfg g := by
-  rcases h with ⟨ts, uts, reqs, evs, rfl⟩
-  exact run_inv hmb evs (init_inv cfg ts uts reqs)
-
+  rcases h with ⟨ts, uts, reqs, evs, hts, rfl⟩
+  exact run_inv hmb evs (init_inv cfg ts uts reqs hts)
 
 theorem reachable_exec {cfg : Config} {g : G} (h : Reachable cfg g) (e : Ev) : Reachable cfg (exec cfg g e) := by
-  rcases h with ⟨ts, uts, reqs, evs, rfl⟩
-  exact ⟨ts, uts, reqs, evs ++ [e], by simp [run, List.foldl_append]⟩
+  rcases h with ⟨ts, uts, reqs, evs, hts, rfl⟩
+  exact ⟨ts, uts, reqs, evs ++ [e], hts, by simp [run, List.foldl_append]⟩
+
+/-- The reachable domain of the clock. cache.go initialises `timestamp` with `uint64(time.Now().Unix())` and
+    only ever stores later readings: it is ≥ 1 in every reachable state (no tick lowers it), so the `uint64`
+    subtraction `ts - 1` of the invalidation branch – modelled with its wrap-around at 0 (`applyInv`) –
+    never wraps. -/
+theorem clock_never_zero {cfg : Config} (hmb : cfg.maxBytes < 2 ^ 63) {g : G} (h : Reachable cfg g) : 1 ≤ g.ts :=
+  (reachable_inv hmb h).clock
+
+/-- reachable in a run in which no `Storage.Set` / `Storage.Delete` (nor `Get` of a body) fails – `Get`s of
+    entries may fail or deliver garbage at will. Every history without storage faults (the property's own
+    quantifier) is of this kind. Theorems stated for `ReachableQ` are the full-strength sentence; their
+    `…_partial` twins hold for every fault schedule outside the region of known finding K1. -/
+def ReachableQ (cfg : Config) (g : G) : Prop :=
+  ∃ (ts uts : Nat) (reqs : List Req) (evs : List Ev), 1 ≤ ts ∧ (∀ q ∈ reqs, q.quiet) ∧ g = run cfg (G.init ts uts reqs) evs
+
+theorem ReachableQ.reachable {cfg : Config} {g : G} (h : ReachableQ cfg g) : Reachable cfg g := by
+  rcases h with ⟨ts, uts, reqs, evs, hts, _, rfl⟩
+  exact ⟨ts, uts, reqs, evs, hts, rfl⟩
+
+theorem ReachableQ.quietOK {cfg : Config} {g : G} (h : ReachableQ cfg g) : QuietOK g := by
+  rcases h with ⟨ts, uts, reqs, evs, _, hq, rfl⟩
+  exact run_quiet evs (init_quiet ts uts reqs hq)
+
+theorem ReachableQ.exec {cfg : Config} {g : G} (h : ReachableQ cfg g) (e : Ev) : ReachableQ cfg (exec cfg g e) := by
+  rcases h with ⟨ts, uts, reqs, evs, hts, hq, rfl⟩
+  exact ⟨ts, uts, reqs, evs ++ [e], hts, hq, by simp [run, List.foldl_append]⟩
 
 /-! ## concrete reachable states used by the non-vacuity examples below -/
 
@@ -40,7 +77,7 @@ theorem exCfg_mb : exCfg.maxBytes < 2 ^ 63 := by decide
 /-- sequential: miss, hit (transparent, stored headers without the ignored one), then expiry → miss -/
 def exSeq : G := run exCfg (G.init 100 100 [exReq [47, 97] [65, 66] false [], exReq [47, 97] [67] false [], exReq [47, 97] [68] false []])
   (steps 0 8 ++ [.tickTs 1, .tickUts 1] ++ steps 1 8 ++ [.tickTs 1] ++ steps 2 8)
-theorem exSeq_reach : Reachable exCfg exSeq := ⟨_, _, _, _, rfl⟩
+theorem exSeq_reach : Reachable exCfg exSeq := ⟨_, _, _, _, by decide, rfl⟩
 example : (exSeq.threads.map fun th => th.out.map fun o => (o.xcache, o.body, o.headers.length)) =
     [some (.miss, [65, 66], 2), some (.hit, [65, 66], 1), some (.miss, [68], 2)] := by decide
 example : exSeq.sh.stored = 1 ∧ exSeq.sh.heap.live.length = 1 := by decide
@@ -51,21 +88,21 @@ example : exSeq.sh.stored = 1 ∧ exSeq.sh.heap.live.length = 1 := by decide
 def exConc : G := run exCfg (G.init 100 100 [exReq [47, 97] [65, 66, 67] false [], exReq [47, 97] [68, 69, 70] false [],
     exReq [47, 97] [71] true [], exReq [47, 97] [72] false (b "No-Cache")])
   (steps 0 3 ++ steps 1 3 ++ steps 0 5 ++ steps 1 5 ++ steps 2 8 ++ steps 3 8)
-theorem exConc_reach : Reachable exCfg exConc := ⟨_, _, _, _, rfl⟩
+theorem exConc_reach : Reachable exCfg exConc := ⟨_, _, _, _, by decide, rfl⟩
 set_option maxRecDepth 20000 in
 example : (exConc.threads.map fun th => th.out.map fun o => (o.xcache, o.body)) =
     [some (.miss, [65, 66, 67]), some (.miss, [68, 69, 70]), some (.miss, [71]), some (.miss, [72])] := by decide
 
 /-- thread 0 is inside the first critical section, thread 1 waits for the mutex -/
 def exWait : G := run exCfg (G.init 100 100 [exReq [47, 97] [65] false [], exReq [47, 97] [66] false []]) (steps 0 2 ++ steps 1 1)
-theorem exWait_reach : Reachable exCfg exWait := ⟨_, _, _, _, rfl⟩
+theorem exWait_reach : Reachable exCfg exWait := ⟨_, _, _, _, by decide, rfl⟩
 /-- a thread waiting for the mutex is disabled while another one is inside the section -/
 example : (step exCfg exWait 1).isSome = false := by decide
 
 /-- `/a` is cached; request 1, for which the invalidator fires, stands inside the first critical section -/
 def exInv : G := run exCfg (G.init 100 100 [exReq [47, 97] [65, 66] false [], exReq [47, 97] [67] true [],
     exReqS 500 [47, 97] [68] false []]) (steps 0 8 ++ steps 1 2)
-theorem exInv_reach : Reachable exCfg exInv := ⟨_, _, _, _, rfl⟩
+theorem exInv_reach : Reachable exCfg exInv := ⟨_, _, _, _, by decide, rfl⟩
 
 /-! ## 1. heap_index_consistent -/
 
@@ -74,12 +111,23 @@ inductive HeapOp where
   | put (key : Key) (exp bytes : Nat)
   | remove (idx : Nat) (key : Key)
   | removeFirst
+  | removeKey (key : Key)
 deriving Repr
 
 def HeapOp.apply (h : Heap) : HeapOp → Option Heap
   | .put k e b => (h.put k e b).map (·.1)
   | .remove i k => (h.remove i k).map (·.1)
   | .removeFirst => h.removeFirst.map (·.1)
+  | .removeKey k => (h.removeKey k).map (·.1)
+
+theorem removeKey_hinv {h h' : Heap} (hi : HInv h) {k : Key} {r : Option Nat} (hs : h.removeKey k = some (h', r)) : HInv h' := by
+  unfold Heap.removeKey at hs
+  split at hs
+  · cases hs; exact hi
+  · rename_i idx _
+    rcases remove_ok hi idx k with ⟨_, _, _, h2, hr, hinv, _⟩ | ⟨_, hr⟩
+    · rw [hr] at hs; cases hs; exact hinv
+    · rw [hr] at hs; cases hs; exact hi
 
 def applyOps (h : Heap) : List HeapOp → Option Heap
   | [] => some h
@@ -100,9 +148,13 @@ theorem heap_index_consistent_step {h h' : Heap} (hi : HInv h) (op : HeapOp) (hs
     · simp [HeapOp.apply, hr] at hs; subst hs; exact hi
   | removeFirst =>
     by_cases hne : h.live = []
-    · simp [HeapOp.apply, Heap.removeFirst, Heap.removeAt, hne] at hs
+    · simp [HeapOp.apply, Heap.removeFirst, Heap.removeInternal, Heap.removeAt, hne] at hs
     · rcases removeFirst_ok hi hne with ⟨h2, x, hr, _, hinv, _⟩
       simp [HeapOp.apply, hr] at hs; subst hs; exact hinv
+  | removeKey k =>
+    cases hr : h.removeKey k with
+    | none => simp [HeapOp.apply, hr] at hs
+    | some r => simp [HeapOp.apply, hr] at hs; subst hs; exact removeKey_hinv hi hr
 
 /-- for all operation sequences -/
 theorem heap_index_consistent (ops : List HeapOp) {h' : Heap} (hs : applyOps Heap.empty ops = some h') : HInv h' := by
@@ -141,6 +193,94 @@ theorem heap_ops_total {h : Heap} (hi : HInv h) (op : HeapOp) :
     by_cases hne : h.live = []
     · right; exact ⟨rfl, hne⟩
     · rcases removeFirst_ok hi hne with ⟨h2, x, hr, _⟩; left; simp [HeapOp.apply, hr]
+  | removeKey k =>
+    left
+    show ((h.removeKey k).map (·.1)).isSome = true
+    unfold Heap.removeKey
+    cases hl : klookup h.keys k with
+    | none => rfl
+    | some idx =>
+      rcases remove_ok hi idx k with ⟨_, _, _, h2, hr, _⟩ | ⟨_, hr⟩ <;> simp [hr]
+
+/-- cache.go only ever `put`s a key right after `removeKey` of that key (second critical section) -/
+def HeapOp.disciplined (h : Heap) : HeapOp → Bool
+  | .put k _ _ => (klookup h.keys k).isNone
+  | _ => true
+
+/-- heap.go's key map stays in step with the entries: `keys[k] = idx` exactly when the entry tracked by `idx`
+    is live and belongs to `k` – preserved by `removeKey`, `remove`, `removeFirst`, and by `put` of a key
+    that is not tracked. -/
+theorem heap_keys_consistent_step {h h' : Heap} (hi : HInv h) (hk : KInv h) (op : HeapOp)
+    (hd : op.disciplined h = true) (hs : op.apply h = some h') : KInv h' := by
+  cases op with
+  | put k e b =>
+    rcases put_ok hi k e b with ⟨h2, idx, hp, _, hfresh, hfind, _, _, hkeys⟩
+    simp [HeapOp.apply, hp] at hs; subst hs
+    have hnk : klookup h.keys k = none := by simpa [HeapOp.disciplined] using hd
+    exact kinv_put hk hfresh hnk hfind hkeys
+  | remove i k =>
+    rcases remove_ok hi i k with ⟨e, hfe, _, h2, hr, _, _, hfind, _, _, hkeys⟩ | ⟨_, hr⟩
+    · simp [HeapOp.apply, hr] at hs; subst hs
+      have hei := find_idx hfe
+      exact kinv_remove hk (by rw [hei]; exact hfe) (by rw [hei]; exact hfind) hkeys
+    · simp [HeapOp.apply, hr] at hs; subst hs; exact hk
+  | removeFirst =>
+    by_cases hne : h.live = []
+    · simp [HeapOp.apply, Heap.removeFirst, Heap.removeInternal, Heap.removeAt, hne] at hs
+    · rcases removeFirst_ok hi hne with ⟨h2, x, hr, hxm, _, _, hfind, _, _, hkeys⟩
+      simp [HeapOp.apply, hr] at hs; subst hs
+      rcases List.mem_iff_getElem?.mp hxm with ⟨p, hp⟩
+      exact kinv_remove hk (live_find hi hp) hfind hkeys
+  | removeKey k =>
+    rcases removeKey_ok hi hk k with ⟨_, hr⟩ | ⟨e, _, _, h2, hr, _, hk2, _⟩
+    · simp [HeapOp.apply, hr] at hs; subst hs; exact hk
+    · simp [HeapOp.apply, hr] at hs; subst hs; exact hk2
+
+/-- disciplined operation sequences: every `put` hits an untracked key -/
+def applyOpsD (h : Heap) : List HeapOp → Option Heap
+  | [] => some h
+  | op :: rest => if op.disciplined h then
+      match op.apply h with
+      | none => none
+      | some h' => applyOpsD h' rest
+    else none
+
+theorem heap_keys_consistent (ops : List HeapOp) {h' : Heap} (hs : applyOpsD Heap.empty ops = some h') :
+    HInv h' ∧ KInv h' := by
+  have gen : ∀ (ops : List HeapOp) (h : Heap), HInv h → KInv h → applyOpsD h ops = some h' → HInv h' ∧ KInv h' := by
+    intro ops
+    induction ops with
+    | nil => intro h hi hk hs; simp [applyOpsD] at hs; subst hs; exact ⟨hi, hk⟩
+    | cons op rest ih =>
+      intro h hi hk hs
+      simp only [applyOpsD] at hs
+      by_cases hd : op.disciplined h = true
+      · rw [if_pos hd] at hs
+        cases ho : op.apply h with
+        | none => rw [ho] at hs; cases hs
+        | some h1 =>
+          rw [ho] at hs
+          exact ih h1 (heap_index_consistent_step hi op ho) (heap_keys_consistent_step hi hk op hd ho) hs
+      · rw [if_neg hd] at hs; cases hs
+  exact gen ops _ HInv_empty KInv_empty hs
+
+/-- in the property's own words: a key is tracked by at most one live entry -/
+theorem heap_key_unique {h : Heap} (hi : HInv h) (hk : KInv h) (i j : Nat) (hil : i < h.live.length) (hjl : j < h.live.length)
+    (heq : (h.live[i]).key = (h.live[j]).key) : i = j := by
+  have h1 : h.live[i]? = some h.live[i] := List.getElem?_eq_getElem hil
+  have h2 : h.live[j]? = some h.live[j] := List.getElem?_eq_getElem hjl
+  have k1 := live_klookup hi hk h1
+  have k2 := live_klookup hi hk h2
+  rw [heq, k2] at k1
+  injection k1 with k1
+  exact heap_live_idx_distinct hi i j hil hjl k1.symm
+
+-- non-vacuity: replace the entry of a key (removeKey, put), evict, re-use the parked index
+example : (applyOpsD Heap.empty [.removeKey [1], .put [1] 5 3, .removeKey [2], .put [2] 4 1, .removeKey [1], .put [1] 9 2,
+    .removeFirst, .removeKey [3], .put [3] 1 7]).isSome = true := by decide
+-- a `put` of a tracked key without `removeKey` first is what the discipline excludes: two entries, one key
+example : (applyOps Heap.empty [.put [1] 5 3, .put [1] 6 3]).map (fun h => (h.live.map (·.key), h.keys)) =
+    some ([[1], [1]], [([1], 1)]) := by decide
 
 -- non-vacuity: a sequence that re-uses an index left behind by Pop and removes from the middle
 example : (applyOps Heap.empty [.put [1] 5 3, .put [2] 4 1, .put [3] 9 2, .removeFirst, .put [4] 1 7, .remove 0 [1]]).isSome = true := by
@@ -169,33 +309,74 @@ theorem bytes_accounted {cfg : Config} (hmb : cfg.maxBytes < 2 ^ 63) {g : G} (h 
   ⟨hi.acc, hi.bound⟩
 
 example : Accounted exCfg exConc.sh := bytes_accounted exCfg_mb exConc_reach
-/- What is *not* claimed (and false for the code): `storedBytes` = bytes actually held. A key that is
-    stored again while its old heap entry is still there (refresh by a `no-cache` request, two requests
-    that both missed, an entry the storage expired by itself) is counted twice until the stale heap
-    entry is evicted: here `storedBytes = 2` while the storage holds one body of 1 byte. The count
-    errs on the safe side only (`held_never_exceeds_maxbytes`). -/
+/-- … and that is exactly the sum of the body sizes of what the cache has stored and neither deleted nor
+    replaced: a key is tracked by one heap entry, every heap entry tracks a stored key – as long as no failed
+    `Storage.Set` / `Storage.Delete` is outstanding. (Before the repair `fix: cache: a key is tracked by one
+    expiry-heap entry` a key stored again – refresh by a `no-cache` request, two requests that both missed, an
+    entry the storage expired by itself – was counted twice until the stale entry was evicted, and evicting it
+    deleted the fresh response: known/C14.json F4.) -/
+theorem stored_bytes_exact_partial {cfg : Config} (hmb : cfg.maxBytes < 2 ^ 63) (hpos : cfg.maxBytes > 0) {g : G}
+    (h : Reachable cfg g) (hd : g.sh.dirty = []) : g.sh.stored = totalBody g.sh.store :=
+  stored_eq_total_of (reachable_inv hmb h).sh hpos hd
+
+/-- what the storage physically holds at its clock value `uts` (the `key_body` values of an injected storage,
+    the items of internal/memory) is that minus what it has let lapse by itself (TTL):
+    `held + lapsed = storedBytes`; in particular `held = storedBytes` whenever nothing has lapsed. -/
+theorem held_plus_lapsed_eq_stored_partial {cfg : Config} (hmb : cfg.maxBytes < 2 ^ 63) (hpos : cfg.maxBytes > 0) {g : G}
+    (h : Reachable cfg g) (hd : g.sh.dirty = []) (uts : Nat) :
+    physHeld cfg g.sh uts + g.sh.store.lapsed uts = g.sh.stored := by
+  rw [stored_bytes_exact_partial hmb hpos h hd, physHeld_eq (reachable_inv hmb h).sh hd]; exact held_add_lapsed _ _
+
+theorem held_eq_stored_when_nothing_lapsed_partial {cfg : Config} (hmb : cfg.maxBytes < 2 ^ 63) (hpos : cfg.maxBytes > 0) {g : G}
+    (h : Reachable cfg g) (hd : g.sh.dirty = []) (uts : Nat) (hl : ∀ p ∈ g.sh.store, p.2.expired uts = false) :
+    physHeld cfg g.sh uts = g.sh.stored := by
+  have := held_plus_lapsed_eq_stored_partial hmb hpos h hd uts
+  have h0 : g.sh.store.lapsed uts = 0 := by
+    unfold Store.lapsed
+    rw [List.filter_eq_nil_iff.mpr (by intro p hp; simp [hl p hp])]; rfl
+  omega
+
+/-- every live heap entry tracks a key the storage was given; the key map mirrors the entries (any faults) -/
+theorem heap_entries_cover_store_partial {cfg : Config} (hmb : cfg.maxBytes < 2 ^ 63) {g : G} (h : Reachable cfg g) :
+    (g.sh.dirty = [] → Covered g.sh) ∧ KInv g.sh.heap :=
+  ⟨(reachable_inv hmb h).sh.covered, (reachable_inv hmb h).sh.kinv⟩
+
+/-- entry and separately stored body of a key belong together unless a `Set`/`Delete` of that key failed -/
+theorem entry_and_body_in_step_partial {cfg : Config} (hmb : cfg.maxBytes < 2 ^ 63) {g : G} (h : Reachable cfg g)
+    (k : Key) (hk : k ∉ g.sh.dirty) :
+    g.sh.bodies.lookup k = (g.sh.store.lookup k).map fun sl => ⟨sl.item.body, sl.sexp⟩ :=
+  ((reachable_inv hmb h).sh.clean k hk (fun x => x)).2.2
+
+-- the two concurrent misses of `/a` (3 bytes each, MaxBytes 5): the second store replaces the first, one entry
 set_option maxRecDepth 20000 in
-example : exConc.sh.stored = 2 ∧ exConc.sh.heap.live.length = 2 ∧ exConc.sh.store.length = 1 ∧
-    exConc.sh.store.held 100 = 1 := by decide
+example : (run exCfg (G.init 100 100 [exReq [47, 97] [65, 66, 67] false [], exReq [47, 97] [68, 69, 70] false []])
+    (steps 0 3 ++ steps 1 3 ++ steps 0 5 ++ steps 1 5)).sh.stored = 3 := by decide
+set_option maxRecDepth 20000 in
+example : exSeq.sh.stored = totalBody exSeq.sh.store ∧ exSeq.sh.bodies.held 102 = 1 :=
+  ⟨stored_bytes_exact_partial exCfg_mb (by decide) exSeq_reach (by decide), by decide⟩
 
 /-- "The bytes held never exceed MaxBytes": the body sizes the storage holds (whatever the storage's
-    clock says about their expiry) sum to at most `storedBytes`, hence to at most MaxBytes. -/
-theorem held_never_exceeds_maxbytes {cfg : Config} (hmb : cfg.maxBytes < 2 ^ 63) (hpos : cfg.maxBytes > 0) {g : G}
-    (h : Reachable cfg g) (uts : Nat) : g.sh.store.held uts ≤ g.sh.stored ∧ g.sh.store.held uts ≤ cfg.maxBytes := by
+    clock says about their expiry) sum to at most `storedBytes`, hence to at most MaxBytes – as long as no
+    failed `Set`/`Delete` is outstanding (K1: a body the storage refused to delete stays, uncounted). -/
+theorem held_never_exceeds_maxbytes_partial {cfg : Config} (hmb : cfg.maxBytes < 2 ^ 63) (hpos : cfg.maxBytes > 0) {g : G}
+    (h : Reachable cfg g) (hd : g.sh.dirty = []) (uts : Nat) :
+    physHeld cfg g.sh uts ≤ g.sh.stored ∧ physHeld cfg g.sh uts ≤ cfg.maxBytes := by
   have hi := (reachable_inv hmb h).sh
-  have h1 := held_le_stored_of hi hpos uts
+  have h1 := held_le_stored_of hi hpos hd uts
   have h2 := hi.bound hpos
   exact ⟨h1, by omega⟩
 
-example : exConc.sh.store.held 100 ≤ exConc.sh.stored ∧ exConc.sh.store.held 100 ≤ exCfg.maxBytes :=
-  held_never_exceeds_maxbytes exCfg_mb (by decide) exConc_reach 100
+set_option maxRecDepth 20000 in
+example : physHeld exCfg exConc.sh 100 ≤ exConc.sh.stored ∧ physHeld exCfg exConc.sh 100 ≤ exCfg.maxBytes :=
+  held_never_exceeds_maxbytes_partial exCfg_mb (by decide) exConc_reach (by decide) 100
 
 /-- every stored response is tracked by a live heap entry of its key and size (MaxBytes > 0) -/
-theorem stored_items_tracked {cfg : Config} (hmb : cfg.maxBytes < 2 ^ 63) (hpos : cfg.maxBytes > 0) {g : G}
-    (h : Reachable cfg g) : Tracked g.sh :=
-  (reachable_inv hmb h).sh.tracked hpos
+theorem stored_items_tracked_partial {cfg : Config} (hmb : cfg.maxBytes < 2 ^ 63) (hpos : cfg.maxBytes > 0) {g : G}
+    (h : Reachable cfg g) (hd : g.sh.dirty = []) : Tracked g.sh :=
+  (reachable_inv hmb h).sh.tracked hpos hd
 
-example : Tracked exConc.sh := stored_items_tracked exCfg_mb (by decide) exConc_reach
+set_option maxRecDepth 20000 in
+example : Tracked exConc.sh := stored_items_tracked_partial exCfg_mb (by decide) exConc_reach (by decide)
 set_option maxRecDepth 20000 in
 example : exConc.sh.store ≠ [] := by decide
 
@@ -205,7 +386,7 @@ theorem heap_unused_without_limit {cfg : Config} (hmb : cfg.maxBytes < 2 ^ 63) (
   (reachable_inv hmb h).sh.unused h0
 
 example : (run { exCfg with maxBytes := 0 } (G.init 100 100 [exReq [47, 97] [65, 66] false []]) (steps 0 8)).sh.heap = Heap.empty :=
-  heap_unused_without_limit (by decide) rfl ⟨_, _, _, _, rfl⟩
+  heap_unused_without_limit (by decide) rfl ⟨_, _, _, _, by decide, rfl⟩
 
 /-! ## 3. no_panic_any_schedule, no_deadlock -/
 
@@ -309,12 +490,18 @@ example : 0 < exWait.remaining ∧ exConc.remaining = 0 := by decide
 
 /-! ## 4. hit_is_transparent, never_after_expiry_or_invalidation, no_cache_bypasses_hit -/
 
-/-- everything a hit guarantees, in one statement -/
+/-- everything a hit guarantees, in one statement – under every fault schedule: the storage delivered the
+    entry (its `Get` neither failed nor returned garbage) and the body (`Get` did not fail); the metadata
+    replayed are those of ONE finished request that stored under the same key; the body is that request's
+    unless a `Set`/`Delete` of the key had failed (`taint`) -/
 theorem hit_justified {cfg : Config} (hmb : cfg.maxBytes < 2 ^ 63) {g : G} (h : Reachable cfg g)
     (t : Nat) (th : Thread) (o : Out) (ht : g.threads[t]? = some th) (ho : th.out = some o) (hx : o.xcache = .hit) :
     th.ran = false ∧ Admitted cfg th.req ∧ th.req.inv = false ∧ hasDirective th.req.cc Facts.noCache = false ∧
-    ∃ (u : Nat) (thu : Thread) (idx : Nat), g.threads[u]? = some thu ∧ StoredBy cfg thu ∧ mkKey thu.req = mkKey th.req ∧
-      o = replay cfg (mkItem cfg thu.req thu.ts idx) th.ts ∧ th.ts < thu.ts + expSecs cfg thu.req := by
+    (cfg.ext = true → (faultAt th.req.f1 0).noEntry = false ∧ (faultAt th.req.f1 1).fails = false) ∧
+    ∃ (u : Nat) (thu : Thread) (idx : Nat) (body : Bytes), g.threads[u]? = some thu ∧ StoredBy cfg thu ∧
+      mkKey thu.req = mkKey th.req ∧
+      o = replay cfg { mkItem cfg thu.req thu.ts idx with body := body } th.ts ∧ th.ts < thu.ts + expSecs cfg thu.req ∧
+      (th.taint = false → body = thu.req.resp.body) := by
   have hok := (reachable_inv hmb h).th t th ht
   unfold ThOK at hok
   have hsome : th.out ≠ none := by rw [ho]; simp
@@ -329,17 +516,20 @@ theorem hit_justified {cfg : Config} (hmb : cfg.maxBytes < 2 ^ 63) {g : G} (h : 
   · exact absurd hok.1 hsome
   · rcases hok with ⟨o', ho', hd⟩
     rw [ho] at ho'; cases ho'
-    rcases hd with ⟨_, a, b', c, d, e⟩ | ⟨hd, _⟩ | ⟨hd, _⟩ | ⟨hd, _⟩
-    · exact ⟨a, b', c, d, e⟩
+    rcases hd with ⟨_, a, b', c, d, e, f⟩ | ⟨hd, _⟩ | ⟨hd, _⟩ | ⟨hd, _⟩
+    · exact ⟨a, b', c, d, e, f⟩
     · rw [hd] at hx; simp [passThrough] at hx
     · rw [hd] at hx; simp [passThrough] at hx
     · rw [hd] at hx; simp [passThrough] at hx
 
 /-- A response served from the cache is identical in status, body, content type, encoding and stored
     headers to what the origin handler produced, in a finished request `u` that stored it under the
-    same cache key (`KeyGenerator` result + method). The origin handler is not invoked. -/
-theorem hit_is_transparent {cfg : Config} (hmb : cfg.maxBytes < 2 ^ 63) {g : G} (h : Reachable cfg g)
-    (t : Nat) (th : Thread) (o : Out) (ht : g.threads[t]? = some th) (ho : th.out = some o) (hx : o.xcache = .hit) :
+    same cache key (`KeyGenerator` result + method). The origin handler is not invoked.
+    (`taint = false`: no `Storage.Set`/`Delete` of this key had failed when the request was looked up – always
+    so when no such call fails, `quiet_runs_stay_clean`; otherwise K1.) -/
+theorem hit_is_transparent_partial {cfg : Config} (hmb : cfg.maxBytes < 2 ^ 63) {g : G} (h : Reachable cfg g)
+    (t : Nat) (th : Thread) (o : Out) (ht : g.threads[t]? = some th) (ho : th.out = some o) (hx : o.xcache = .hit)
+    (htaint : th.taint = false) :
     th.ran = false ∧
     ∃ (u : Nat) (thu : Thread), g.threads[u]? = some thu ∧ thu.pc = .done ∧ thu.ran = true ∧
       thu.out = some (passThrough .miss thu.req.resp) ∧ mkKey thu.req = mkKey th.req ∧
@@ -349,16 +539,52 @@ theorem hit_is_transparent {cfg : Config} (hmb : cfg.maxBytes < 2 ^ 63) {g : G} 
           setHdr (storedHeaders cfg thu.req.resp) (b "Cache-Control")
             (b "public, max-age=" ++ natToDec (thu.ts + expSecs cfg thu.req - th.ts))
         else storedHeaders cfg thu.req.resp) := by
-  rcases hit_justified hmb h t th o ht ho hx with ⟨hran, _, _, _, u, thu, idx, hu, hst, hkey, hrep, _⟩
+  rcases hit_justified hmb h t th o ht ho hx with ⟨hran, _, _, _, _, u, thu, idx, body, hu, hst, hkey, hrep, _, hbody⟩
   refine ⟨hran, u, thu, hu, hst.1, hst.2.2.1, hst.2.1, hkey, ?_⟩
   subst hrep
+  rw [hbody htaint]
   simp only [replay, mkItem, effCType_idem]
   refine ⟨trivial, trivial, trivial, trivial, ?_⟩
   by_cases hc : cfg.cacheControl = true <;> simp [hc]
 
--- the second request of `exSeq` is a hit; the theorem applies to it
+/-- … and whatever the storage did: status, content type, encoding and stored headers of a hit are those of one
+    finished request that stored under the same key (only the body can be another one's, K1) -/
+theorem hit_metadata_transparent {cfg : Config} (hmb : cfg.maxBytes < 2 ^ 63) {g : G} (h : Reachable cfg g)
+    (t : Nat) (th : Thread) (o : Out) (ht : g.threads[t]? = some th) (ho : th.out = some o) (hx : o.xcache = .hit) :
+    th.ran = false ∧
+    ∃ (u : Nat) (thu : Thread), g.threads[u]? = some thu ∧ thu.pc = .done ∧ thu.ran = true ∧
+      thu.out = some (passThrough .miss thu.req.resp) ∧ mkKey thu.req = mkKey th.req ∧
+      o.status = thu.req.resp.status ∧ o.ctype = effCType thu.req.resp.ctype ∧ o.cenc = thu.req.resp.cenc ∧
+      o.headers = (if cfg.cacheControl then
+          setHdr (storedHeaders cfg thu.req.resp) (b "Cache-Control")
+            (b "public, max-age=" ++ natToDec (thu.ts + expSecs cfg thu.req - th.ts))
+        else storedHeaders cfg thu.req.resp) := by
+  rcases hit_justified hmb h t th o ht ho hx with ⟨hran, _, _, _, _, u, thu, idx, body, hu, hst, hkey, hrep, _, _⟩
+  refine ⟨hran, u, thu, hu, hst.1, hst.2.2.1, hst.2.1, hkey, ?_⟩
+  subst hrep
+  simp only [replay, mkItem, effCType_idem]
+  refine ⟨trivial, trivial, trivial, ?_⟩
+  by_cases hc : cfg.cacheControl = true <;> simp [hc]
+
+/-- a request whose `Get` of the entry failed or returned a value that does not decode, or whose `Get` of
+    the body failed, is never answered from the cache (injected storage) -/
+theorem failed_get_never_hit {cfg : Config} (hmb : cfg.maxBytes < 2 ^ 63) {g : G} (h : Reachable cfg g)
+    (t : Nat) (th : Thread) (o : Out) (ht : g.threads[t]? = some th) (ho : th.out = some o) (hext : cfg.ext = true)
+    (hf : (faultAt th.req.f1 0).noEntry = true ∨ (faultAt th.req.f1 1).fails = true) : o.xcache ≠ .hit := by
+  intro hx
+  have := (hit_justified hmb h t th o ht ho hx).2.2.2.2.1 hext
+  rcases hf with hf | hf
+  · rw [this.1] at hf; cases hf
+  · rw [this.2] at hf; cases hf
+
+-- the second request of `exSeq` is a hit; the theorems apply to it
 example :=
-  hit_is_transparent exCfg_mb exSeq_reach 1 _ _ (getElem?_getD_default (by decide)) (some_getD_default (by decide)) (by decide)
+  hit_is_transparent_partial exCfg_mb exSeq_reach 1 _ _ (getElem?_getD_default (by decide)) (some_getD_default (by decide)) (by decide)
+    (by decide)
+-- the same history with the entry `Get` of request 1 failing / delivering garbage, or its body `Get` failing: no hit
+example : ((run exCfg (G.init 100 100 [exReq [47, 97] [65, 66] false [], { exReq [47, 97] [67] false [] with f1 := [.garbled] },
+    { exReq [47, 97] [68] false [] with f1 := [.ok, .err] }]) (steps 0 8 ++ steps 1 8 ++ steps 2 8)).threads.map
+      fun th => th.out.map (·.xcache)) = [some .miss, some .miss, some .miss] := by decide
 
 /-- the cache key separates methods: with configured methods free of `_`, equal keys mean equal
     method and equal `KeyGenerator` result ("for the same method and key") -/
@@ -379,9 +605,11 @@ example : mkKey { (default : Req) with keyMat := b "a_B", method := b "A" } =
     (`ts` read when serving < `ts` of the storing request + its expiration), … -/
 theorem never_after_expiry {cfg : Config} (hmb : cfg.maxBytes < 2 ^ 63) {g : G} (h : Reachable cfg g)
     (t : Nat) (th : Thread) (o : Out) (ht : g.threads[t]? = some th) (ho : th.out = some o) (hx : o.xcache = .hit) :
-    ∃ (u : Nat) (thu : Thread) (idx : Nat), g.threads[u]? = some thu ∧ StoredBy cfg thu ∧ mkKey thu.req = mkKey th.req ∧
-      o = replay cfg (mkItem cfg thu.req thu.ts idx) th.ts ∧ th.ts < thu.ts + expSecs cfg thu.req :=
-  (hit_justified hmb h t th o ht ho hx).2.2.2.2
+    ∃ (u : Nat) (thu : Thread) (idx : Nat) (body : Bytes), g.threads[u]? = some thu ∧ StoredBy cfg thu ∧
+      mkKey thu.req = mkKey th.req ∧
+      o = replay cfg { mkItem cfg thu.req thu.ts idx with body := body } th.ts ∧ th.ts < thu.ts + expSecs cfg thu.req := by
+  rcases (hit_justified hmb h t th o ht ho hx).2.2.2.2.2 with ⟨u, thu, idx, body, h1, h2, h3, h4, h5, _⟩
+  exact ⟨u, thu, idx, body, h1, h2, h3, h4, h5⟩
 
 example :=
   never_after_expiry exCfg_mb exSeq_reach 1 _ _ (getElem?_getD_default (by decide)) (some_getD_default (by decide)) (by decide)
@@ -399,20 +627,19 @@ example : (exSeq.threads[1]?.getD default).req.inv = false :=
 
 /-- Invalidation, step form: when the thread inside the first section belongs to a request for which
     the invalidator fires and which finds an entry (`manager.get` ≠ nil), the step erases the key
-    from the storage – so by `hit_replays_current` nothing stored before can be served afterwards. -/
-theorem invalidation_erases_entry {cfg : Config} (hmb : cfg.maxBytes < 2 ^ 63) {g g' : G} (h : Reachable cfg g)
+    from the storage – so by `hit_replays_current` nothing stored before can be served afterwards.
+    (`hdel`: the storage's `Delete` of the entry goes through; the code ignores its error, K1.) -/
+theorem invalidation_erases_entry_partial {cfg : Config} (hmb : cfg.maxBytes < 2 ^ 63) {g g' : G} (h : Reachable cfg g)
     (t : Nat) (th : Thread) (ht : g.threads[t]? = some th) (hpc : th.pc = .sec1) (hinv : th.req.inv = true)
-    (hts : g.ts ≥ 2) (hfound : lookup1 cfg g.sh g.uts (mkKey th.req) ≠ none)
+    (hts : g.ts ≥ 2) (hfound : lookup1 cfg g.sh g.uts (mkKey th.req) (faultAt th.req.f1 0) ≠ none)
+    (hdel : (cfg.ext && (faultAt th.req.f1 1).fails) = false)
     (hs : step cfg g t = some g') : g'.sh.store.lookup (mkKey th.req) = none := by
   have hi := reachable_inv hmb h
   unfold step at hs
   rw [ht] at hs
   simp only [hpc] at hs
-  rcases sec1_invalidates hinv hts hfound _ rfl with ⟨sh', hr, hl⟩ | hr
-  · rw [hr] at hs; cases hs; exact hl
-  · rcases sec1_ok hmb hi.sh g.ts g.uts th.req (mkKey th.req) with ⟨o, ho⟩ | ⟨sh', hp, _⟩
-    · rw [hr] at ho; cases ho
-    · rw [hr] at hp; cases hp
+  rcases sec1_invalidates hmb hi.sh hinv hts hfound hdel with ⟨sh', hr, hl⟩
+  rw [hr] at hs; cases hs; exact hl
 
 -- `exInv`: the entry of `/a` is there before the step of the invalidating request and gone after it
 example : (exInv.sh.store.lookup (mkKey (exReq [47, 97] [67] true []))).isSome = true ∧
@@ -437,14 +664,15 @@ theorem absent_key_never_hit {cfg : Config} (hmb : cfg.maxBytes < 2 ^ 63) {g : G
     the `CacheInvalidator` fired (and which found an entry), every request for the same cache key that
     has not been answered yet is not answered from the cache in any continuation of the run – any
     interleaving, any clock advance – in which no response is stored under that key again. -/
-theorem never_after_invalidation {cfg : Config} (hmb : cfg.maxBytes < 2 ^ 63) {g g1 : G} (h : Reachable cfg g)
+theorem never_after_invalidation_partial {cfg : Config} (hmb : cfg.maxBytes < 2 ^ 63) {g g1 : G} (h : Reachable cfg g)
     (u : Nat) (thu : Thread) (hu : g.threads[u]? = some thu) (hpcu : thu.pc = .sec1) (hinv : thu.req.inv = true)
-    (hts : g.ts ≥ 2) (hfound : lookup1 cfg g.sh g.uts (mkKey thu.req) ≠ none) (hs : step cfg g u = some g1)
+    (hts : g.ts ≥ 2) (hfound : lookup1 cfg g.sh g.uts (mkKey thu.req) (faultAt thu.req.f1 0) ≠ none)
+    (hdel : (cfg.ext && (faultAt thu.req.f1 1).fails) = false) (hs : step cfg g u = some g1)
     (evs : List Ev) (hns : noStoreOf cfg (mkKey thu.req) g1 evs = true)
     (t : Nat) (th : Thread) (ht : g1.threads[t]? = some th) (hpc : th.pc ≠ .done) (hkey : mkKey th.req = mkKey thu.req)
     (th' : Thread) (o : Out) (ht' : (run cfg g1 evs).threads[t]? = some th') (ho : th'.out = some o) :
     o.xcache ≠ .hit := by
-  have hk := invalidation_erases_entry hmb h u thu hu hpcu hinv hts hfound hs
+  have hk := invalidation_erases_entry_partial hmb h u thu hu hpcu hinv hts hfound hdel hs
   have hr1 : Reachable cfg g1 := by
     have := reachable_exec h (.step u)
     simpa [exec, hs] using this
@@ -454,8 +682,8 @@ theorem never_after_invalidation {cfg : Config} (hmb : cfg.maxBytes < 2 ^ 63) {g
 -- status 500, so it stores nothing) runs to its end: it is not served the entry request 0 stored
 set_option maxRecDepth 20000 in
 example : (((run exCfg ((step exCfg exInv 1).getD exInv) (steps 2 8)).threads[2]?.getD default).out.getD default).xcache ≠ .hit :=
-  never_after_invalidation exCfg_mb exInv_reach 1 _ (getElem?_getD_default (by decide)) (by decide) (by decide)
-    (by decide) (by decide) (some_getD_default (by decide)) (steps 2 8) (by decide)
+  never_after_invalidation_partial exCfg_mb exInv_reach 1 _ (getElem?_getD_default (by decide)) (by decide) (by decide)
+    (by decide) (by decide) (by decide) (some_getD_default (by decide)) (steps 2 8) (by decide)
     2 _ (getElem?_getD_default (by decide)) (by decide) (by decide) _ _
     (getElem?_getD_default (by decide)) (some_getD_default (by decide))
 
@@ -465,7 +693,9 @@ theorem hit_replays_current {cfg : Config} (hmb : cfg.maxBytes < 2 ^ 63) {g g' :
     (t : Nat) (th th' : Thread) (o : Out)
     (ht : g.threads[t]? = some th) (hpc : th.pc = .sec1) (hs : step cfg g t = some g')
     (ht' : g'.threads[t]? = some th') (ho : th'.out = some o) (hx : o.xcache = .hit) :
-    ∃ sl, g.sh.store.lookup (mkKey th.req) = some sl ∧ sl.expired g.uts = false ∧ o = replay cfg sl.item g.ts ∧
+    ∃ sl, g.sh.store.lookup (mkKey th.req) = some sl ∧ sl.expired g.uts = false ∧
+      o = replay cfg { sl.item with body := hitBody cfg g.sh g.uts (mkKey th.req) sl.item } g.ts ∧
+      (mkKey th.req ∉ g.sh.dirty → o = replay cfg sl.item g.ts) ∧
       g.ts < sl.item.exp ∧ g'.sh.store = g.sh.store := by
   unfold step at hs
   rw [ht] at hs
@@ -484,8 +714,11 @@ theorem hit_replays_current {cfg : Config} (hmb : cfg.maxBytes < 2 ^ 63) {g g' :
     rw [hr] at hs; cases hs
     simp [G.setThread, hlt] at ht'; subst ht'
     simp at ho; subst ho
-    rcases sec1_hit hr with ⟨sl, h1, h2, h3, _, _, h4⟩
-    exact ⟨sl, h1, h2, h3, h4, rfl⟩
+    rcases sec1_hit (reachable_inv hmb h).clock hr with ⟨sl, h1, h2, h3, _, h4, _⟩
+    refine ⟨sl, h1, h2, h3, ?_, h4, rfl⟩
+    intro hnd
+    have hsync := ((reachable_inv hmb h).sh.clean _ hnd (fun x => x)).2.2
+    rw [h3, hitBody_sync hsync h1 h2]
   | pass sh' =>
     rw [hr] at hs; cases hs
     simp [G.setThread, hlt] at ht'; subst ht'
@@ -495,7 +728,7 @@ set_option maxRecDepth 20000 in
 example : ∃ g, Reachable exCfg g ∧ (g.threads[1]?.map (·.pc)) = some .sec1 ∧
     (((step exCfg g 1).getD g).threads[1]?.map fun th => th.out.map (·.xcache)) = some (some .hit) :=
   ⟨run exCfg (G.init 100 100 [exReq [47, 97] [65, 66] false [], exReq [47, 97] [67] false []]) (steps 0 8 ++ steps 1 2),
-   ⟨_, _, _, _, rfl⟩, by decide, by decide⟩
+   ⟨_, _, _, _, by decide, rfl⟩, by decide, by decide⟩
 
 /-- a request carrying `no-cache` (any letter case) is never answered from the cache -/
 theorem no_cache_bypasses_hit {cfg : Config} (hmb : cfg.maxBytes < 2 ^ 63) {g : G} (h : Reachable cfg g)
@@ -544,7 +777,7 @@ theorem no_store_bypasses_all {cfg : Config} (hmb : cfg.maxBytes < 2 ^ 63) {g : 
     · exact absurd hok.2.2 hna
     · exact absurd hok.2.2 hna
     · exact absurd hok.2.2 hna
-    · exact absurd hok.2.2 hna
+    · exact absurd hok.2.2.1 hna
     · exact absurd hok.2.2.1 hna
     · exact absurd hok.2.2.1 hna
     · cases hs
@@ -560,7 +793,7 @@ theorem no_store_bypasses_all {cfg : Config} (hmb : cfg.maxBytes < 2 ^ 63) {g : 
 def exNoStore : G := run exCfg (G.init 100 100 [exReq [47, 97] [65, 66] false [], exReq [47, 97] [67] false (b "NO-STORE")]) (steps 0 8 ++ steps 1 8)
 example : (exNoStore.threads[1]?.getD default).out = some (passThrough .absent (exReq [47, 97] [67] false (b "NO-STORE")).resp) ∧
     (exNoStore.threads[1]?.getD default).ran = true :=
-  (no_store_bypasses_all exCfg_mb ⟨_, _, _, _, rfl⟩ 1 _ (getElem?_getD_default (by decide)) (by decide)).2 (by decide)
+  (no_store_bypasses_all exCfg_mb ⟨_, _, _, _, by decide, rfl⟩ 1 _ (getElem?_getD_default (by decide)) (by decide)).2 (by decide)
 
 /-- the same for the RFC 9111 reading of the header -/
 theorem rfc_no_store_bypasses_all {cfg : Config} (hmb : cfg.maxBytes < 2 ^ 63) {g : G} (h : Reachable cfg g)
@@ -594,6 +827,281 @@ example : ∃ k sl, exConc.sh.store.lookup k = some sl ∧ cacheable sl.item.sta
 -- a response with status 500 is passed through and nothing is stored
 example : (run exCfg (G.init 100 100 [exReqS 500 [47, 97] [65] false []]) (steps 0 8)).sh.store = [] := by decide
 
+/-- A response whose origin handler failed (`c.Next()` returned an error) is never stored: whatever the
+    storage holds was stored by a request whose handler succeeded; a request whose handler fails never enters
+    the second critical section, is never answered `miss`, and the step in which its handler fails leaves the
+    storage, the heap, `storedBytes` and the mutex as they were (the middleware returns the error unchanged,
+    without a cache-status header). -/
+theorem failed_response_never_stored {cfg : Config} (hmb : cfg.maxBytes < 2 ^ 63) {g : G} (h : Reachable cfg g) :
+    (∀ k sl, g.sh.store.lookup k = some sl →
+      ∃ (u : Nat) (thu : Thread) (idx : Nat), g.threads[u]? = some thu ∧ thu.req.err = false ∧ mkKey thu.req = k ∧
+        sl.item = mkItem cfg thu.req thu.ts idx) ∧
+    (∀ (t : Nat) (th : Thread), g.threads[t]? = some th → th.req.err = true →
+      th.pc ≠ .afterNext ∧ th.pc ≠ .wantLock2 ∧ th.pc ≠ .sec2 ∧ ∀ o, th.out = some o → o.xcache ≠ .miss) ∧
+    (∀ (t : Nat) (th : Thread) (g' : G), g.threads[t]? = some th → th.req.err = true → th.pc = .next →
+      step cfg g t = some g' →
+        g'.sh.store = g.sh.store ∧ g'.sh.bodies = g.sh.bodies ∧ g'.sh.heap = g.sh.heap ∧ g'.sh.stored = g.sh.stored ∧
+        g'.mux = g.mux ∧
+        g'.threads[t]? = some { th with pc := .done, ran := true, out := some (passThrough .absent th.req.resp) }) := by
+  have hi := reachable_inv hmb h
+  refine ⟨?_, ?_, ?_⟩
+  · intro k sl hl
+    rcases hi.origin k sl hl with ⟨u, thu, idx, hu, hst, hk, hit⟩
+    exact ⟨u, thu, idx, hu, hst.2.2.2.2.2.2, hk, hit⟩
+  · intro t th ht herr
+    have hok := hi.th t th ht
+    unfold ThOK at hok
+    refine ⟨?_, ?_, ?_, ?_⟩
+    · intro hpc; simp only [hpc] at hok; rw [hok.2.2.2] at herr; cases herr
+    · intro hpc; simp only [hpc] at hok; rw [hok.2.2.2.2] at herr; cases herr
+    · intro hpc; simp only [hpc] at hok; rw [hok.2.2.2.2] at herr; cases herr
+    · intro o ho hx
+      have hsome : th.out ≠ none := by rw [ho]; simp
+      cases hpc : th.pc <;> simp only [hpc] at hok
+      · exact absurd hok.1 hsome
+      · exact absurd hok.1 hsome
+      · exact absurd hok.1 hsome
+      · exact absurd hok.1 hsome
+      · exact absurd hok.1 hsome
+      · exact absurd hok.1 hsome
+      · exact absurd hok.1 hsome
+      · exact absurd hok.1 hsome
+      · rcases hok with ⟨o', ho', hd⟩
+        rw [ho] at ho'; cases ho'
+        rcases hd with ⟨hh, _⟩ | ⟨_, _, _, _, _, he⟩ | ⟨hd, _⟩ | ⟨hd, _⟩
+        · rw [hh] at hx; cases hx
+        · rw [he] at herr; cases herr
+        · rw [hd] at hx; simp [passThrough] at hx
+        · rw [hd] at hx; simp [passThrough] at hx
+  · intro t th g' ht herr hpc hs
+    unfold step at hs
+    rw [ht] at hs
+    simp only [hpc, herr, if_true] at hs
+    cases hs
+    have hlt : t < g.threads.length := lt_of_getElem? ht
+    refine ⟨rfl, rfl, rfl, rfl, rfl, ?_⟩
+    simp [G.setThread, hlt]
+
+-- a failing handler with a cacheable status (404): the error passes through, nothing is stored, the next request misses
+example : ((run exCfg (G.init 100 100 [{ exReqS 404 [47, 97] [65] false [] with err := true }, exReq [47, 97] [66] false []])
+    (steps 0 8 ++ steps 1 8)).threads.map fun th => th.out.map (·.xcache)) = [some .absent, some .miss] := by decide
+example : (run exCfg (G.init 100 100 [{ exReqS 404 [47, 97] [65] false [] with err := true }]) (steps 0 8)).sh.store = [] := by decide
+
+/-! ## 7. storage faults -/
+
+/-- In a run in which no `Storage.Set` / `Storage.Delete` (nor `Get` of a body) fails – `Get`s of entries may
+    fail or deliver garbage at will – no key ever becomes dirty and no request is tainted: the hypotheses
+    `dirty = []` / `taint = false` of the theorems above hold throughout. -/
+theorem quiet_runs_stay_clean {cfg : Config} (ts uts : Nat) (reqs : List Req) (evs : List Ev)
+    (hq : ∀ q ∈ reqs, q.quiet) :
+    (run cfg (G.init ts uts reqs) evs).sh.dirty = [] ∧
+    ∀ (t : Nat) (th : Thread), (run cfg (G.init ts uts reqs) evs).threads[t]? = some th → th.taint = false :=
+  (run_quiet evs (init_quiet ts uts reqs hq)).2
+
+example : (exReq [47, 97] [65] false []).quiet ∧ ({ exReq [47, 97] [65] false [] with f1 := [.garbled] } : Req).quiet := by
+  refine ⟨⟨fun i _ => ?_, fun i => ?_⟩, ⟨fun i hi => ?_, fun i => ?_⟩⟩
+  · simp [exReq, exReqS, faultAt, Fault.fails]
+  · simp [exReq, exReqS, faultAt, Fault.fails]
+  · cases i with
+    | zero => omega
+    | succ j => simp [faultAt, Fault.fails]
+  · simp [exReq, exReqS, faultAt, Fault.fails]
+
+/-! ## 8. the sentence at full strength when no `Storage.Set` / `Storage.Delete` fails
+
+The property's own quantifier (interleavings × histories × configurations) has no storage faults; `ReachableQ`
+is wider: `Get`s may fail or deliver garbage. -/
+
+/-- `storedBytes` = Σ body sizes of what the cache has stored and neither deleted nor replaced -/
+theorem stored_bytes_exact {cfg : Config} (hmb : cfg.maxBytes < 2 ^ 63) (hpos : cfg.maxBytes > 0) {g : G}
+    (h : ReachableQ cfg g) : g.sh.stored = totalBody g.sh.store :=
+  stored_bytes_exact_partial hmb hpos h.reachable h.quietOK.2.1
+
+/-- `held + lapsed = storedBytes`: the bytes the storage physically holds are exactly the bytes counted, minus
+    what the storage itself has let lapse (TTL on its own clock) -/
+theorem held_plus_lapsed_eq_stored {cfg : Config} (hmb : cfg.maxBytes < 2 ^ 63) (hpos : cfg.maxBytes > 0) {g : G}
+    (h : ReachableQ cfg g) (uts : Nat) : physHeld cfg g.sh uts + g.sh.store.lapsed uts = g.sh.stored :=
+  held_plus_lapsed_eq_stored_partial hmb hpos h.reachable h.quietOK.2.1 uts
+
+theorem held_eq_stored_when_nothing_lapsed {cfg : Config} (hmb : cfg.maxBytes < 2 ^ 63) (hpos : cfg.maxBytes > 0) {g : G}
+    (h : ReachableQ cfg g) (uts : Nat) (hl : ∀ p ∈ g.sh.store, p.2.expired uts = false) :
+    physHeld cfg g.sh uts = g.sh.stored :=
+  held_eq_stored_when_nothing_lapsed_partial hmb hpos h.reachable h.quietOK.2.1 uts hl
+
+/-- "The bytes held never exceed MaxBytes" -/
+theorem held_never_exceeds_maxbytes {cfg : Config} (hmb : cfg.maxBytes < 2 ^ 63) (hpos : cfg.maxBytes > 0) {g : G}
+    (h : ReachableQ cfg g) (uts : Nat) :
+    physHeld cfg g.sh uts ≤ g.sh.stored ∧ physHeld cfg g.sh uts ≤ cfg.maxBytes :=
+  held_never_exceeds_maxbytes_partial hmb hpos h.reachable h.quietOK.2.1 uts
+
+/-- every stored response is tracked by a live heap entry of its key and size; every live heap entry tracks a
+    stored key; a key is tracked once; entry and body of every key are in step -/
+theorem stored_items_tracked {cfg : Config} (hmb : cfg.maxBytes < 2 ^ 63) (hpos : cfg.maxBytes > 0) {g : G}
+    (h : ReachableQ cfg g) : Tracked g.sh :=
+  stored_items_tracked_partial hmb hpos h.reachable h.quietOK.2.1
+
+theorem heap_entries_cover_store {cfg : Config} (hmb : cfg.maxBytes < 2 ^ 63) {g : G} (h : ReachableQ cfg g) :
+    Covered g.sh ∧ KInv g.sh.heap :=
+  ⟨(heap_entries_cover_store_partial hmb h.reachable).1 h.quietOK.2.1, (heap_entries_cover_store_partial hmb h.reachable).2⟩
+
+theorem entry_and_body_in_step {cfg : Config} (hmb : cfg.maxBytes < 2 ^ 63) {g : G} (h : ReachableQ cfg g) (k : Key) :
+    g.sh.bodies.lookup k = (g.sh.store.lookup k).map fun sl => ⟨sl.item.body, sl.sexp⟩ :=
+  entry_and_body_in_step_partial hmb h.reachable k (by rw [h.quietOK.2.1]; simp)
+
+/-- A response served from the cache is identical in status, body, content type, encoding and stored
+    headers to what the origin handler produced, in a finished request `u` that stored it under the
+    same cache key (`KeyGenerator` result + method). The origin handler is not invoked. -/
+theorem hit_is_transparent {cfg : Config} (hmb : cfg.maxBytes < 2 ^ 63) {g : G} (h : ReachableQ cfg g)
+    (t : Nat) (th : Thread) (o : Out) (ht : g.threads[t]? = some th) (ho : th.out = some o) (hx : o.xcache = .hit) :
+    th.ran = false ∧
+    ∃ (u : Nat) (thu : Thread), g.threads[u]? = some thu ∧ thu.pc = .done ∧ thu.ran = true ∧
+      thu.out = some (passThrough .miss thu.req.resp) ∧ mkKey thu.req = mkKey th.req ∧
+      o.status = thu.req.resp.status ∧ o.body = thu.req.resp.body ∧ o.ctype = effCType thu.req.resp.ctype ∧
+      o.cenc = thu.req.resp.cenc ∧
+      o.headers = (if cfg.cacheControl then
+          setHdr (storedHeaders cfg thu.req.resp) (b "Cache-Control")
+            (b "public, max-age=" ++ natToDec (thu.ts + expSecs cfg thu.req - th.ts))
+        else storedHeaders cfg thu.req.resp) :=
+  hit_is_transparent_partial hmb h.reachable t th o ht ho hx (h.quietOK.2.2 t th ht)
+
+/-- Invalidation, step form: the first critical section of a request for which the invalidator fires and which
+    finds an entry erases the key from the storage -/
+theorem invalidation_erases_entry {cfg : Config} (hmb : cfg.maxBytes < 2 ^ 63) {g g' : G} (h : ReachableQ cfg g)
+    (t : Nat) (th : Thread) (ht : g.threads[t]? = some th) (hpc : th.pc = .sec1) (hinv : th.req.inv = true)
+    (hts : g.ts ≥ 2) (hfound : lookup1 cfg g.sh g.uts (mkKey th.req) (faultAt th.req.f1 0) ≠ none)
+    (hs : step cfg g t = some g') : g'.sh.store.lookup (mkKey th.req) = none :=
+  invalidation_erases_entry_partial hmb h.reachable t th ht hpc hinv hts hfound
+    (by rw [(h.quietOK.1 t th ht).1 1 (by omega)]; simp) hs
+
+/-- "… never served after its … invalidation": after the first critical section of a request for which
+    the `CacheInvalidator` fired (and which found an entry), every request for the same cache key that
+    has not been answered yet is not answered from the cache in any continuation of the run – any
+    interleaving, any clock advance – in which no response is stored under that key again. -/
+theorem never_after_invalidation {cfg : Config} (hmb : cfg.maxBytes < 2 ^ 63) {g g1 : G} (h : ReachableQ cfg g)
+    (u : Nat) (thu : Thread) (hu : g.threads[u]? = some thu) (hpcu : thu.pc = .sec1) (hinv : thu.req.inv = true)
+    (hts : g.ts ≥ 2) (hfound : lookup1 cfg g.sh g.uts (mkKey thu.req) (faultAt thu.req.f1 0) ≠ none)
+    (hs : step cfg g u = some g1)
+    (evs : List Ev) (hns : noStoreOf cfg (mkKey thu.req) g1 evs = true)
+    (t : Nat) (th : Thread) (ht : g1.threads[t]? = some th) (hpc : th.pc ≠ .done) (hkey : mkKey th.req = mkKey thu.req)
+    (th' : Thread) (o : Out) (ht' : (run cfg g1 evs).threads[t]? = some th') (ho : th'.out = some o) :
+    o.xcache ≠ .hit :=
+  never_after_invalidation_partial hmb h.reachable u thu hu hpcu hinv hts hfound
+    (by rw [(h.quietOK.1 u thu hu).1 1 (by omega)]; simp) hs evs hns t th ht hpc hkey th' o ht' ho
+
+/-- "… or corrupt its accounting", step form of what an observer of the storage sees: a request that stores a
+    response which fits next to everything the cache has stored under other keys evicts nothing – the storage
+    afterwards holds what it held, plus / with the new response under the request's key. (Before F4 a key
+    stored twice was counted twice and this failed: GET /a, GET /a no-cache, GET /b with one-byte bodies and
+    MaxBytes 2 evicted the fresh /a.) -/
+theorem no_needless_eviction {cfg : Config} (hmb : cfg.maxBytes < 2 ^ 63) (hpos : cfg.maxBytes > 0) {g g' : G}
+    (h : ReachableQ cfg g) (t : Nat) (th : Thread) (ht : g.threads[t]? = some th) (hpc : th.pc = .sec2)
+    (hfit : totalBody (g.sh.store.erase (mkKey th.req)) + th.req.resp.body.length ≤ cfg.maxBytes)
+    (hs : step cfg g t = some g') :
+    (∃ idx, g'.sh.store = g.sh.store.set (mkKey th.req) ⟨mkItem cfg th.req th.ts idx, storageExp cfg th.req g.uts⟩) ∨
+    g'.sh.store = g.sh.store := by
+  have hi := reachable_inv hmb h.reachable
+  unfold step at hs
+  rw [ht] at hs
+  simp only [hpc] at hs
+  cases hr : sec2 cfg g.sh th.ts g.uts th.req (mkKey th.req) with
+  | panic => rw [hr] at hs; cases hs; right; rfl
+  | unreachable => rw [hr] at hs; cases hs; right; rfl
+  | stored sh' =>
+    rw [hr] at hs; cases hs
+    left
+    exact sec2_no_needless_eviction hmb hpos hi.sh h.quietOK.2.1 (h.quietOK.1 t th ht).2 hfit hr
+
+-- non-vacuity of the full-strength statements: the example states are reachable without storage faults …
+theorem exSeq_reachQ : ReachableQ exCfg exSeq :=
+  ⟨_, _, _, _, by decide, by intro q hq; simp at hq; rcases hq with h | h | h <;> subst h <;> exact quiet_of_no_faults rfl rfl, rfl⟩
+theorem exConc_reachQ : ReachableQ exCfg exConc :=
+  ⟨_, _, _, _, by decide, by intro q hq; simp at hq; rcases hq with h | h | h | h <;> subst h <;> exact quiet_of_no_faults rfl rfl, rfl⟩
+theorem exInv_reachQ : ReachableQ exCfg exInv :=
+  ⟨_, _, _, _, by decide, by intro q hq; simp at hq; rcases hq with h | h | h <;> subst h <;> exact quiet_of_no_faults rfl rfl, rfl⟩
+/-- … and so is a history whose second request finds the storage unable to deliver the entry -/
+def exGetFault : G := run exCfg (G.init 100 100 [exReq [47, 97] [65, 66] false [],
+    { exReq [47, 97] [67] false [] with f1 := [.garbled] }, exReq [47, 97] [68] false []]) (steps 0 8 ++ steps 1 8 ++ steps 2 8)
+theorem exGetFault_reachQ : ReachableQ exCfg exGetFault :=
+  ⟨_, _, _, _, by decide, by
+    intro q hq; simp at hq
+    rcases hq with h | h | h <;> subst h
+    · exact quiet_of_no_faults rfl rfl
+    · exact quiet_of_entry_fault _ .garbled rfl rfl
+    · exact quiet_of_no_faults rfl rfl, rfl⟩
+-- request 1 misses although `/a` is stored (its Get delivered garbage) and stores its own response; request 2 is served that
+set_option maxRecDepth 20000 in
+example : (exGetFault.threads.map fun th => th.out.map fun o : Out => (o.xcache, o.body)) =
+    [some (.miss, [65, 66]), some (.miss, [67]), some (.hit, [67])] := by decide
+example := hit_is_transparent exCfg_mb exGetFault_reachQ 2 _ _ (getElem?_getD_default (by decide)) (some_getD_default (by decide)) (by decide)
+example := hit_is_transparent exCfg_mb exSeq_reachQ 1 _ _ (getElem?_getD_default (by decide)) (some_getD_default (by decide)) (by decide)
+example : exConc.sh.stored = totalBody exConc.sh.store := stored_bytes_exact exCfg_mb (by decide) exConc_reachQ
+example : physHeld exCfg exConc.sh 100 ≤ exCfg.maxBytes := (held_never_exceeds_maxbytes exCfg_mb (by decide) exConc_reachQ 100).2
+example : Tracked exConc.sh ∧ Covered exConc.sh :=
+  ⟨stored_items_tracked exCfg_mb (by decide) exConc_reachQ, (heap_entries_cover_store exCfg_mb exConc_reachQ).1⟩
+example := held_plus_lapsed_eq_stored exCfg_mb (by decide) exSeq_reachQ 102
+example := entry_and_body_in_step exCfg_mb exSeq_reachQ (mkKey (exReq [47, 97] [68] false []))
+set_option maxRecDepth 20000 in
+example : (((run exCfg ((step exCfg exInv 1).getD exInv) (steps 2 8)).threads[2]?.getD default).out.getD default).xcache ≠ .hit :=
+  never_after_invalidation exCfg_mb exInv_reachQ 1 _ (getElem?_getD_default (by decide)) (by decide) (by decide)
+    (by decide) (by decide) (some_getD_default (by decide)) (steps 2 8) (by decide)
+    2 _ (getElem?_getD_default (by decide)) (by decide) (by decide) _ _
+    (getElem?_getD_default (by decide)) (some_getD_default (by decide))
+-- `no_needless_eviction`: `/b` (1 byte) fits next to `/a` (1 byte) with MaxBytes 2: the step that stores it keeps `/a`
+set_option maxRecDepth 20000 in
+example : ∃ g, ReachableQ { exCfg with maxBytes := 2 } g ∧ (g.threads[1]?.map (·.pc)) = some .sec2 ∧
+    totalBody (g.sh.store.erase (mkKey (exReq [47, 98] [66] false []))) + 1 ≤ 2 :=
+  ⟨run { exCfg with maxBytes := 2 } (G.init 100 100 [exReq [47, 97] [65] false [], exReq [47, 98] [66] false []]) (steps 0 8 ++ steps 1 6),
+   ⟨_, _, _, _, by decide, by intro q hq; simp at hq; rcases hq with h | h <;> subst h <;> exact quiet_of_no_faults rfl rfl, rfl⟩,
+   by decide, by decide⟩
+
+/-- the fixed witness of F4 in the model: /a, /a again (no-cache), /b with one-byte bodies and MaxBytes 2 – both
+    responses are held afterwards and the fourth request is a hit -/
+def exRecount : G := run { exCfg with maxBytes := 2, expiration := 60 } (G.init 100 100 [exReq [47, 97] [65] false [],
+    exReq [47, 97] [66] false (b "no-cache"), exReq [47, 98] [67] false [], exReq [47, 97] [68] false []])
+  (steps 0 8 ++ steps 1 8 ++ steps 2 8 ++ steps 3 8)
+set_option maxRecDepth 20000 in
+example : (exRecount.threads.map fun th => th.out.map fun o : Out => (o.xcache, o.body)) =
+    [some (.miss, [65]), some (.miss, [66]), some (.miss, [67]), some (.hit, [66])] ∧ exRecount.sh.stored = 2 ∧
+    exRecount.sh.heap.live.length = 2 := by decide
+
+/-! ## 9. the region of known finding K1 is not empty: witnesses -/
+
+/-- K1, witnessed in the model: `GET /a` is stored (status 200, body `AB`); a `no-cache` refresh produces status
+    203 and body `C`, but its second `Storage.Set` (the entry) fails and the code ignores it: the storage holds
+    the OLD entry with the NEW body, and the next request is answered `hit` with status 200 and body `C` – the
+    response of no request. The key is dirty, the request tainted: exactly the region the `…_partial`
+    theorems exclude. -/
+def exK1 : G := run exCfg (G.init 100 100 [exReq [47, 97] [65, 66] false [],
+    { exReqS 203 [47, 97] [67] false (b "no-cache") with f2 := [.ok, .err] }, exReq [47, 97] [68] false []])
+  (steps 0 8 ++ steps 1 8 ++ steps 2 8)
+theorem exK1_reach : Reachable exCfg exK1 := ⟨_, _, _, _, by decide, rfl⟩
+set_option maxRecDepth 20000 in
+example : ((exK1.threads[2]?.getD default).out.map fun o : Out => (o.xcache, o.status, o.body)) = some (XCache.hit, 200, [67]) ∧
+    (exK1.threads[2]?.getD default).taint = true ∧ exK1.sh.dirty = [mkKey (exReq [47, 97] [65, 66] false [])] := by decide
+
+set_option maxRecDepth 20000 in
+/-- the full statement of `hit_is_transparent` fails on it: no request produced status 200 with body `C` -/
+theorem hit_is_transparent_witness_K1 :
+    ¬ ∃ (u : Nat) (thu : Thread), exK1.threads[u]? = some thu ∧
+        ((exK1.threads[2]?.getD default).out.getD default).status = thu.req.resp.status ∧
+        ((exK1.threads[2]?.getD default).out.getD default).body = thu.req.resp.body := by
+  rintro ⟨u, thu, hu, hs, hb⟩
+  have hall : ∀ x ∈ exK1.threads, ¬ (((exK1.threads[2]?.getD default).out.getD default).status = x.req.resp.status ∧
+      ((exK1.threads[2]?.getD default).out.getD default).body = x.req.resp.body) := by decide
+  exact hall thu (List.mem_of_getElem? hu) ⟨hs, hb⟩
+
+/-- … the mutex discipline, the heap and the count are intact there too -/
+example : Accounted exCfg exK1.sh := bytes_accounted exCfg_mb exK1_reach
+
+/-- K1, the accounting side: `/a` (3 bytes) is stored, `/b` (3 bytes) evicts it, but the storage refuses to delete
+    `/a`'s body (second `Delete` of the eviction fails, ignored): 6 bytes are held with MaxBytes 5 -/
+def exK1held : G := run exCfg (G.init 100 100 [exReq [47, 97] [65, 66, 67] false [],
+    { exReq [47, 98] [68, 69, 70] false [] with f2 := [.ok, .err] }]) (steps 0 8 ++ steps 1 8)
+set_option maxRecDepth 20000 in
+theorem held_never_exceeds_maxbytes_witness_K1 : ¬ physHeld exCfg exK1held.sh 100 ≤ exCfg.maxBytes := by decide
+set_option maxRecDepth 20000 in
+example : exK1held.sh.dirty ≠ [] ∧ exK1held.sh.stored = 3 := by decide
+
 /-- the regenerated status table contains only statuses the spec allows a cache to store (RFC 9110
     §15.1 heuristically cacheable, plus 418 which fiber adds) -/
 theorem cacheable_table_sound : ∀ s ∈ Facts.cacheableStatusCodes, specCacheable s = true := by
@@ -607,5 +1115,12 @@ theorem cacheable_implies_spec (s : Nat) (h : cacheable s = true) : specCacheabl
     after `mux.Lock()`, and `heap.remove` is called with the key to check -/
 theorem facts_get_under_lock : Facts.getUnderLock = true := by decide
 theorem facts_remove_checks_key : Facts.removeChecksKey = true := by decide
+/-- cache.go drops what is tracked for the key (`heap.removeKey`) inside the second critical section before
+    `heap.put`, and heap.go keeps `h.keys` in `put` / `removeInternal` / `removeKey` – what `sec2` and
+    `Heap.put/removeInternal/removeKey` transcribe -/
+theorem facts_key_tracked_once : Facts.storeDropsTracked = true ∧ Facts.keyMapMaintained = true := by decide
+/-- manager.go `get` blanks the item when `UnmarshalMsg` fails, and the hit condition of cache.go goes through
+    `manager.loadBody` – what `lookup1` (`Fault.noEntry`) and `sec1Found` (body `Get` failed → not served) transcribe -/
+theorem facts_get_faults_are_misses : Facts.getFaultsAreMisses = true := by decide
 
 end C14
